@@ -204,3 +204,34 @@ func vLeafCharNoNL(name string) string {
 	verifrt.Assume(verifrt.All(b < 0x7f, b > 0x20))
 	return string(rune(b))
 }
+
+// VerifC14Wide: a line break followed by an arbitrary non-ASCII character
+// (combining marks, wide and astral characters included) under a style: the
+// break stays unstyled and every character keeps exactly its attributes.
+func VerifC14Wide() {
+	a := vLeafCharNoNL("ch")
+	r := verifrt.Rune("wide")
+	verifrt.Assume(verifrt.All(r >= 0xa0, r != 0x2028, r != 0x2029))
+	for _, d := range decoration {
+		verifrt.Assume(r != d)
+	}
+	op := vOps[[]int{1, 7, 9, 10, 12}[verifrt.Choice("op", 5)]] // Bold, Color, Link, QuoteBlock, Header
+	pos := verifrt.Choice("pos", 3)
+	var text string
+	switch pos {
+	case 0:
+		text = a + "\n" + string(r) + a
+	case 1:
+		text = string(r) + "\n" + a
+	default:
+		text = a + string(r) + "\n" + string(r)
+	}
+	want := []string{}
+	for _, c := range text {
+		if c != '\n' {
+			want = append(want, expectAttrs(op.attrs()))
+		}
+	}
+	c14check(want, op.apply(text), "wide", false)
+	verifrt.Reach("end")
+}
